@@ -137,4 +137,3 @@ func planDigest(p *Plan) string {
 		p.World, p.N, p.Ruleset, p.Crypto, p.Cache, p.Wire, p.Leader, len(p.Byz), len(p.Faults), len(p.Inject), p.UntilMs)
 }
 
-func GenCmdCachePlan(seed uint64) *Plan          { return &Plan{World: "cmdcache", Seed: seed} }
